@@ -260,7 +260,9 @@ func zvC36Deltas() []zvC36Delta {
 		{Name: "ipv4-addpath-recv", F: func(s *zvC36Set) { s.IPv4 = &zvC36Fam{AddPath: "recv"} }, Core: true},
 		{Name: "ipv4-addpath-send2", F: func(s *zvC36Set) { s.IPv4 = &zvC36Fam{AddPath: "send2"} }, Core: true},
 		{Name: "ipv4-addpath-both", F: func(s *zvC36Set) { s.IPv4 = &zvC36Fam{AddPath: "both"} }},
-		{Name: "ipv6-addpath-recv", F: func(s *zvC36Set) { s.IPv6 = &zvC36Fam{AddPath: "recv"} }},
+		{Name: "ipv6-addpath-recv", F: func(s *zvC36Set) { s.IPv6 = &zvC36Fam{AddPath: "recv"} }, Core: true},
+		// two families with different settings, and a policy-only change on top (reloaded in place)
+		{Name: "ipv6-addpath-recv+import=A", F: func(s *zvC36Set) { s.IPv6 = &zvC36Fam{AddPath: "recv"}; s.Import = []string{"A"} }, Core: true},
 		{Name: "next_hop_extended", F: func(s *zvC36Set) { s.IPv4 = &zvC36Fam{NHExt: true} }, Core: true},
 		{Name: "multiprotocol_ipv4", F: func(s *zvC36Set) { s.MPv4 = true }, NeighOnly: true, CoreN: true},
 		{Name: "import=A", F: func(s *zvC36Set) { s.Import = []string{"A"} }, Core: true, CoreN: true},
